@@ -1,6 +1,6 @@
 (* C19 -- Convenience accessors and coap-message views agree with raw message state. *)
 From CoapV Require Import Base Header Packet UintOpt Utf8 Numbers TypedOpt Accessors Suite06 Suite19
-  PacketOps proofs.PEnc proofs.P19 proofs.P19b.
+  PacketOps proofs.PEnc proofs.P19 proofs.P19b proofs.P19c.
 
 Theorem C19_method : forall p m, get_method (set_method p m) = m /\
   token (set_method p m) = token p /\ opts (set_method p m) = opts p /\ payload (set_method p m) = payload p /\
@@ -83,6 +83,13 @@ Theorem C19_copy : forall src, pkt_wf src ->
   token d = token packet_new /\ vtt (hdr d) = vtt (hdr packet_new) /\ mid (hdr d) = mid (hdr packet_new).
 Proof. exact copy_into_fresh. Qed.
 Print Assumptions C19_copy.
+
+(* method / status accessors, path getters and the coap-message view pass the suite-190 oracle (spec190, stated on the
+   raw state) on EVERY input of kinds 0-3, 5 and 11 *)
+Theorem C19_model_passes_oracle_part : forall s,
+  (exists r, s = 0 :: r \/ s = 1 :: r \/ s = 2 :: r \/ s = 3 :: r \/ s = 5 :: r \/ s = 11 :: r) -> verdict190 s (run190 s) = true.
+Proof. exact model_passes_oracle190_part. Qed.
+Print Assumptions C19_model_passes_oracle_part.
 
 Example C19_example :
   let p := set_path packet_new [47; 97; 47; 98] in
